@@ -172,3 +172,8 @@ package mux
 //@ func WorkerGrp.DoDelete
 //@   requires grpwf(w)
 //@   modifies everything()
+//
+// the reply channel of a request has room for the one reply, so the worker never blocks on a caller that gave up
+//@ func NewAsync
+//@   ensures result != nil && isfresh(result) && result.ctx == ctx && result.op == op && result.rChan != nil && chancap(result.rChan) == 1
+//@   modifies region($alloc), region($chancap), region($chanlen), region($chanclosed)
